@@ -295,6 +295,7 @@ type Node struct {
 	cl       *cluster.Cluster
 	internal *sub
 	subs     map[int]*sub
+	stalled  []*sub
 	markerFb atomic.Int64
 	fbWant   int64
 	lWant    int64
@@ -351,7 +352,7 @@ func (c *Cluster) softWait(what string, cond func() bool) {
 		waitFor(what, cond)
 		return
 	}
-	cap := waitCap
+	cap := 3 * time.Second
 	if len(c.missed) > 0 {
 		cap = 150 * time.Millisecond
 	}
@@ -493,8 +494,6 @@ func (c *Cluster) barrier(n *Node) {
 	if _, err := c.leaseCl.Send(c.ctx, n.addr, kv.TxRequest{Context: c.ctx, Leaseholder: node.Key(n.key)}); err != nil {
 		panic(fmt.Sprintf("lease marker: %v", err))
 	}
-	before := n.internal.empties.Load()
-	_ = before
 	want := n.lWant
 	c.softWait("local marker at observer", func() bool { return n.internal.empties.Load() >= want })
 	if n.internal.empties.Load() < want {
@@ -689,6 +688,8 @@ func (c *Cluster) Step(o Op) (rc int) {
 		s.gate = make(chan struct{})
 		s.stalled.Store(true)
 		c.anyStall = true
+		delete(n.subs, o.S)
+		n.stalled = append(n.stalled, s)
 		// more forwarded requests than the subscriber's private buffer holds (empty lease-forwarded
 		// TxRequests: persisted, forwarded to every observer, invisible to engines and gossip)
 		cnt := o.Count
@@ -861,15 +862,10 @@ func (c *Cluster) Dump(withSubs bool) StepDump {
 }
 
 func (n *Node) releaseStalled() {
-	for _, s := range n.subs {
-		if s.stalled.Load() && s.gate != nil {
-			select {
-			case <-s.gate:
-			default:
-				close(s.gate)
-			}
-		}
+	for _, s := range n.stalled {
+		close(s.gate)
 	}
+	n.stalled = nil
 }
 
 func (c *Cluster) Close() {
